@@ -138,6 +138,11 @@ struct Client {
     /// a LoadWorkspace progress was created and the watcher re-registration that ends a reload has not been seen yet
     reload_in_progress: bool,
     register_seen: u32,
+    /// LSP document version per document: starts at a small number on didOpen (editors restart the
+    /// count for a re-opened document), increases with every didChange of that session
+    doc_version: Vec<i32>,
+    /// how often each document was opened (the start version of a session depends on it)
+    open_count: Vec<u32>,
 }
 
 
@@ -236,7 +241,13 @@ impl Client {
         let seq = self.out.history.len();
         let t = self.now_ms();
         self.out.sent.insert(id, SentReq { method: method.to_string(), kind, seq, t_ms: t });
-        self.send(proto::request(id, method, params));
+        let mut msg = proto::request(id, method, params);
+        if proto::string_id(id) {
+            if let Message::Request(r) = &mut msg {
+                r.id = format!("s{id}").into();
+            }
+        }
+        self.send(msg);
     }
 
     fn uri(&self, d: usize) -> String {
@@ -251,7 +262,7 @@ impl Client {
             self.out.history.push(HEvent { t_ms: t, dir: Dir::S2C, msg: msg.clone() });
             match msg {
                 Message::Response(resp) => {
-                    let id = match resp.id.to_string().trim_matches('"').parse::<i32>() {
+                    let id = match resp.id.to_string().trim_matches('"').trim_start_matches('s').parse::<i32>() {
                         Ok(i) => i,
                         Err(_) => {
                             self.out.alien_responses.push(resp);
@@ -458,9 +469,19 @@ impl Client {
                 self.out.dirty_closed[*doc] = None;
                 self.out.doc_notifs.push(('o', *doc));
                 let uri = self.uri(*doc);
+                // first session of a document starts at 1; later sessions start lower or higher
+                // than where the previous one ended (0, 1, or a large number), never related to it
+                self.open_count[*doc] += 1;
+                self.doc_version[*doc] = match self.open_count[*doc] % 4 {
+                    1 => 1,
+                    2 => 0,
+                    3 => 40,
+                    _ => 1,
+                };
+                let version = self.doc_version[*doc];
                 self.send(proto::notification(
                     "textDocument/didOpen",
-                    json!({"textDocument": {"uri": uri, "languageId": "lua", "version": 1, "text": text}}),
+                    json!({"textDocument": {"uri": uri, "languageId": "lua", "version": version, "text": text}}),
                 ));
             }
             Action::Change { doc, text } => {
@@ -473,9 +494,11 @@ impl Client {
                 self.out.doc_notifs.push(('c', *doc));
                 self.out.editor[*doc] = Some(text.clone());
                 let uri = self.uri(*doc);
+                self.doc_version[*doc] += 1;
+                let version = self.doc_version[*doc];
                 self.send(proto::notification(
                     "textDocument/didChange",
-                    json!({"textDocument": {"uri": uri, "version": 2}, "contentChanges": [{"text": text}]}),
+                    json!({"textDocument": {"uri": uri, "version": version}, "contentChanges": [{"text": text}]}),
                 ));
             }
             Action::Save { doc } => {
@@ -534,7 +557,11 @@ impl Client {
                     "fault.cancel_pending_request"
                 };
                 self.count(state);
-                self.send(proto::notification("$/cancelRequest", json!({"id": id})));
+                if proto::string_id(*id) {
+                    self.send(proto::notification("$/cancelRequest", json!({"id": format!("s{id}")})));
+                } else {
+                    self.send(proto::notification("$/cancelRequest", json!({"id": id})));
+                }
             }
             Action::ChangeConfig { version } => {
                 self.cfg_version = *version;
@@ -796,6 +823,7 @@ pub fn execute_opts(spec: &RunSpec, capture_sites: bool) -> Outcome {
         shared_for_ids.borrow_mut().main_task_raw = server.id().to_string().parse::<u64>().unwrap_or(0);
         let client = tokio::spawn(async move {
             let fault_rng = Rng::stream(spec2.seed, "client-faults");
+            let spec2_docs = spec2.docs.len();
             let mut c = Client {
                 spec: spec2,
                 root,
@@ -814,6 +842,8 @@ pub fn execute_opts(spec: &RunSpec, capture_sites: bool) -> Outcome {
                 next_probe_id: 50_000,
                 reload_in_progress: false,
                 register_seen: 0,
+                doc_version: vec![0; spec2_docs],
+                open_count: vec![0; spec2_docs],
             };
             let fut = client_main(&mut c, server);
             match tokio::time::timeout(Duration::from_secs(3600), fut).await {
